@@ -5,7 +5,7 @@ package ref
 
 import (
 	"crypto/hmac"
-	"crypto/md5" //nolint:gosec
+	"crypto/md5"  //nolint:gosec
 	"crypto/sha1" //nolint:gosec
 	"encoding/binary"
 	"errors"
